@@ -148,15 +148,31 @@ simple_coll!(Imports, ImportId, imports,
     tok: |it| it.name[1..].parse().unwrap_or(9999),
     find: |m, v| m.imports.find("env", &format!("i{}", v)).map(|i| i.index() as i64).unwrap_or(-1),
     muti: yes);
+fn func_tok(f: &Function) -> u32 {
+    // the value a function of the history was made with: the constant its body starts with
+    match &f.kind {
+        FunctionKind::Local(l) => match l.block(l.entry_block()).instrs.first() {
+            Some((walrus::ir::Instr::Const(c), _)) => match c.value {
+                IrValue::I32(v) => v as u32,
+                _ => 9999,
+            },
+            _ => 9999,
+        },
+        _ => 9999,
+    }
+}
 simple_coll!(Funcs, FunctionId, funcs,
     add: |m, v| {
+        // every other function has no name: by_name must look past it
         let mut b = FunctionBuilder::new(&mut m.types, &[], &[]);
-        b.name(format!("f{}", v));
+        if v % 2 == 0 {
+            b.name(format!("f{}", v));
+        }
         b.func_body().i32_const(v as i32).drop();
         b.finish(vec![], &mut m.funcs)
     },
-    tok: |it| it.name.as_ref().and_then(|n| n[1..].parse().ok()).unwrap_or(9999),
-    find: |m, v| m.funcs.by_name(&format!("f{}", v)).map(|i| i.index() as i64).unwrap_or(-1),
+    tok: |it| func_tok(it),
+    find: |m, v| if v % 2 == 0 { m.funcs.by_name(&format!("f{}", v)).map(|i| i.index() as i64).unwrap_or(-1) } else { m.funcs.iter().find(|f| func_tok(f) == v).map(|f| f.id().index() as i64).unwrap_or(-1) },
     muti: yes);
 
 // locals: no delete
